@@ -87,7 +87,7 @@ def _check_forwarding(res, mod, fn, call, key):
     return kws
 
 
-@rule("C08.polarity", ["C08"],
+@rule("C08.polarity", ["C08", "C09"],
       "maintainers unhook what left (old/removed) and hook what arrived "
       "(new/added), forwarding graph, handler, target and dispatcher")
 def polarity(ctx, res):
@@ -128,6 +128,39 @@ def polarity(ctx, res):
                        key + ":forward:graph", mod.loc(c),
                        "downstream graph is not forwarded unchanged")
             _check_forwarding(res, mod, fn, c, key)
+            # the (un)hooking applies to every item: nothing but the loop
+            # over the items (and, for trait values, the UNOBSERVABLE filter
+            # with its NotifierNotFound tolerance) may stand between the
+            # function entry and the call
+            par = {}
+            for pnode in ast.walk(fn):
+                for ch in ast.iter_child_nodes(pnode):
+                    par[id(ch)] = pnode
+            chain = []
+            x = par.get(id(c))
+            while x is not None and x is not fn:
+                chain.append(x)
+                x = par.get(id(x))
+            bad = None
+            for st in chain:
+                if isinstance(st, (ast.Expr, ast.For, ast.keyword)):
+                    continue
+                if isinstance(st, ast.Try):
+                    continue
+                if isinstance(st, ast.If) and "UNOBSERVABLE_VALUES" in norm(
+                        st.test):
+                    continue
+                bad = st
+            loops = [st for st in chain if isinstance(st, ast.For)]
+            skips = [n2 for l in loops for n2 in ast.walk(l)
+                     if isinstance(n2, (ast.Continue, ast.Break, ast.Return))]
+            res.oblige(bad is None and not skips, key + ":unconditional",
+                       mod.loc(bad or (skips[0] if skips else c)),
+                       f"the maintainer (un)hooks `{norm(obj)}` only "
+                       f"conditionally ("
+                       f"{'`' + norm(bad.test)[:50] + '`' if isinstance(bad, ast.If) else 'continue/break in the loop'}"
+                       f"): registrations are counted per occurrence, so "
+                       f"skipping an item makes the count drift")
         res.oblige(seen_sides == set(sides),
                    f"{rel.split('/')[-1]}:{qual}:both-sides", mod.loc(fn),
                    f"maintainer handles only {sorted(seen_sides)} of "
